@@ -317,6 +317,11 @@ def r3(chk, prog, variant):
                 # writes through pointer arguments by libc writers
                 if nm.startswith("llvm.mem") or nm in ("snprintf", "vsnprintf", "strcpy", "strcat", "memcpy", "sprintf", "strncpy"):
                     tgts.append(i.ops[0])
+                # ... and by the I/O and utility routines that fill a caller-supplied buffer
+                wr = {"read": 1, "pread": 1, "recv": 1, "recvfrom": 1, "fread": 0, "fgets": 0, "qsort": 0, "strftime": 0, "getrandom": 0,
+                      "memmove": 0, "memset": 0, "stpcpy": 0, "strncat": 0, "gmtime_r": 1, "localtime_r": 1, "strerror_r": 1}.get(nm)
+                if wr is not None and wr < len(i.ops):
+                    tgts.append(i.ops[wr])
             for t in tgts:
                 root = None
                 tt = strip_casts(t) if t.kind in ("cexpr", "global") else t
